@@ -15,7 +15,7 @@ REQUIRED_MONITORS = ["truth@setup.cov_mm", "truth@setup.dat", "truth@SSI_fast", 
 ALL_STATES = [f"{s}|{r}|{b}|{m}" for s in ("real", "complex") for r in ("ref=all", "ref=subset", "ref=single")
               for b in ("br=nu+1", "br>nu+1") for m in ("cov_mm", "dat")] + ["mpe: two modes inside each other's default tolerance"]
 REQUIRED_STATES = ["mpe: two modes inside each other's default tolerance", "lowest mode below 0.01 fs, short record", "mpe: requests not in ascending order",
-                   "second analysis on the same array object"]
+                   "second analysis on the same array object", "record amplitude below 1e-5", "mpe: whole-number requests of integer type"]
 RULE = ("seeded random systems (m 1..6, real/complex shapes, xi 0.2..8 %, f in (0.02,0.45) fs, 2..8 channels, any reference "
         "subset whose numerical observability index nu is finite, br >= nu+1, records 400..3000 samples); a case is "
         "non-trivial when the guards hold (cond(H) <= 1e8, sigma_2m/sigma_2m+1 >= 1e6) and the monitors judged it; distinct = "
@@ -53,6 +53,12 @@ def draw_system(rng, real_only=False, mmax=6):
     cplx = (not real_only) and bool(rng.integers(0, 2))
     xi_rng = (0.002, 0.08)
     fn, xi, Phi, lam = gen.make_system(rng, m, nch, fs, cplx, xi_rng)
+    if fs >= 20 and rng.random() < 0.2:
+        # frequencies that are (almost) whole numbers of Hz - what a user types as sel_freq=[2, 5, 9]
+        cand = np.arange(max(1, int(0.03 * fs) + 1), int(0.44 * fs))
+        if len(cand) >= m:
+            fn = np.sort(rng.choice(cand, m, replace=False)).astype(float) * (1 + 3e-3 * rng.uniform(-1, 1, m))
+            lam = 2 * np.pi * fn * (-xi + 1j * np.sqrt(1 - xi**2))
     if rng.random() < 0.15:
         # the lowest mode far below 0.02 fs: less than one cycle may fit into a short record (still a legal, well-conditioned case)
         fn = fn.copy()
@@ -158,6 +164,11 @@ def run_setup(ctx, case, rng, default_hc):
         ctx.state("lowest mode below 0.01 fs, short record")
     N = max(N, 2 * br + 2 + (br + 1) * (nch + len(ref)) + 50)
     Y, _ = gen.free_decay(rng, Phi, lam, fs, N)
+    if rng.random() < 0.35:
+        amp = float(10 ** rng.uniform(-10, 4))  # displacements in metres, strains, raw counts: identification does not depend on the unit
+        Y = Y * amp
+        if amp < 1e-5:
+            ctx.state("record amplitude below 1e-5")
     ordmax = 2 * m + int(rng.integers(0, 3))
     if br * nch < ordmax or (br + 1) * len(ref) < ordmax:
         ordmax = 2 * m
@@ -200,6 +211,10 @@ def run_setup(ctx, case, rng, default_hc):
             if not np.array_equal(perm, np.arange(m)):
                 fn, xi, Phi = fn_true[perm], xi_true[perm], Phi_true[:, perm]
                 ctx.state("mpe: requests not in ascending order")
+        as_int = (not close) and all(abs(f - round(f)) <= 0.3 * rtol_mpe * f and round(f) >= 1 for f in fn) and len({round(f) for f in fn}) == m
+        mpe_block.as_int = bool(as_int and rng.random() < 0.7)
+        if mpe_block.as_int:
+            ctx.state("mpe: whole-number requests of integer type")
         try:
             mpe_block(ctx, ss, alg, r, fn, xi, Phi, o, rtol_mpe, m, nch, tol, meth, close)
         finally:
@@ -211,7 +226,7 @@ def run_setup(ctx, case, rng, default_hc):
 
 def mpe_block(ctx, ss, alg, r, fn, xi, Phi, o, rtol_mpe, m, nch, tol, meth, close):
     if True:
-        ss.mpe("a", sel_freq=[float(f) for f in fn], order=o, rtol=rtol_mpe)
+        ss.mpe("a", sel_freq=([int(round(f)) for f in fn] if getattr(mpe_block, "as_int", False) else [float(f) for f in fn]), order=o, rtol=rtol_mpe)
         if close and rtol_mpe == 5e-2:
             ctx.state("mpe: two modes inside each other's default tolerance")
         ctx.ev("mpe@setup")
@@ -260,7 +275,7 @@ def run_fn(ctx, case, rng):
     if np.max(np.abs(Hc.imag)) > 1e-9 * np.max(np.abs(Hc.real)):
         raise AssertionError("generator: H not real")
     H = Hc.real
-    H = H / np.linalg.norm(H, 2) * 10 ** rng.uniform(-3, 3)
+    H = H / np.linalg.norm(H, 2) * 10 ** (rng.uniform(-3, 3) if rng.random() < 0.7 else rng.uniform(-20, 6))  # covariances of records in any unit
     tol = guards(ctx, H, m)
     if tol is None:
         return
